@@ -86,6 +86,17 @@ thread_local! {
     static TL: RefCell<Tl> = RefCell::new(Tl::default());
 }
 
+/// Resets the thread-local trace (used by C03 and C10).
+pub fn tl_reset(fault_at: Option<usize>) {
+    TL.with(|t| {
+        *t.borrow_mut() = Tl { trace: Vec::new(), fault_at, cond_pos: BTreeMap::new() };
+    });
+}
+
+pub fn tl_take_trace() -> Vec<Ev> {
+    TL.with(|t| std::mem::take(&mut t.borrow_mut().trace))
+}
+
 /// Records the event; Err if this is the injected fault point.
 fn emit(ev: Ev) -> ExecResult<()> {
     TL.with(|t| {
